@@ -257,6 +257,17 @@ def _val_strategy(kind, glt, cls, dtype, small=None):
             d, _ = draw(gen.direction3())
             th = draw(f(0.0, rmax))
             phi = [th * c for c in d]
+            if not small and draw(st.integers(0, 5)) == 0:
+                # a rotation vector whose norm is EXACTLY a switch-over point of the hand-written Jacobians (theta > 0.1 in calcQ,
+                # theta > eps elsewhere): along a coordinate axis the norm is the component itself, so the comparison is a tie in
+                # the case's dtype (0.1 rounds to the dtype exactly as the library's literal does) - seed C04h
+                thv = draw(st.sampled_from((0.1, 0.1, gen.EPS[dtype])))
+                ax, sg_ = draw(st.integers(0, 3)), draw(st.sampled_from((1.0, -1.0)))
+                phi = [0.0, 0.0, 0.0]
+                if ax < 3:
+                    phi[ax] = sg_ * thv
+                else:
+                    phi = [sg_ * 0.6 * thv, 0.8 * thv, 0.0] if thv != 0.1 else [sg_ * 0.06, 0.08, 0.0]
             tau = [draw(f(-tmax, tmax)) for _ in range(3)]
             sg = draw(f(-0.06, 0.06)) if small else (draw(f(-1.5, 1.5)) if big_scale else draw(f(-0.3, 0.3)))
         return R.join_alg(alt, np.array(tau), np.array(phi), sg).tolist()
@@ -434,6 +445,11 @@ def check_program(case, rec, tol64=1e-6, must_work=False):
     tol = tol64 if dtype == "float64" else 16 * math.sqrt(tu.EPS["float32"])
     if any(i.get("const") for i in case["inputs"]):
         rec.label("has_const_input")
+    for inp in case["inputs"]:
+        if inp["kind"] == "A":
+            n_ = float(torch.tensor(R.split_alg(FAM[glt], np.array(inp["val"]))[1], dtype=tu.TD[dtype]).norm())
+            if n_ in (float(torch.tensor(0.1, dtype=tu.TD[dtype])), tu.EPS[dtype]):
+                rec.label("rotation_norm_tie:%s" % ("0.1" if n_ > 0.05 else "eps"))
     for k, inp in enumerate(case["inputs"]):
         if inp.get("const"):
             continue
